@@ -343,6 +343,12 @@ class ShadowWriter(object):
             pass
 
 
+HOSTILE_ADDITIONS = {'unix', 'dos', 'mac', 'json', 'yaml', 'text', 'binary',
+                     'text/plain', 'text/markdown', 'text/html', 'x',
+                     'diffx', '.preamble', '.meta', '.change', '..preamble',
+                     '..meta', '..file', '...meta', '...diff'}
+
+
 class WriterActor(Actor):
     kind = 'writer'
 
@@ -445,6 +451,20 @@ class WriterActor(Actor):
         except Exception as e:
             rec['outcome'] = 'raise'
             rec['exc'] = exc_summary(e, world.L)
+
+            if self.spec.get('hostile_handler'):
+                # a handler that edits what the exception carries (its own
+                # copy, as far as the caller can know)
+                for v in list(vars(e).values()):
+                    try:
+                        if isinstance(v, set):
+                            v.update(HOSTILE_ADDITIONS)
+                        elif isinstance(v, list):
+                            v.extend(sorted(HOSTILE_ADDITIONS))
+                        elif isinstance(v, dict):
+                            v.update({k: 1 for k in HOSTILE_ADDITIONS})
+                    except Exception:
+                        pass
 
         rec['wrote'] = len(f.data) - len0
         rec['nwrites'] = self.handle.ncalls - nw0
@@ -638,6 +658,13 @@ def consumer_mutates(rec, mode):
             o['indent'] = 1
         elif mode == 3:
             o.pop('encoding', None)
+        elif mode == 5:
+            # relabelled for the consumer's own dispatch
+            if isinstance(rec.get('level'), int):
+                rec['level'] += 1
+
+            rec['section'] = rec.get('type')
+            rec.pop('type', None)
         else:
             o.clear()
             rec.clear()
